@@ -91,6 +91,12 @@ CLAIMED.update({
         note="Not claimed: equality of the schemas of source and restored gateway, idempotence of restoring into a populated gateway (entity layer). The always-kept expired 313F is a recorded known finding. Time stamps are concrete (dt.fromisoformat is C code).",
         design="4/C16"),
 })
+CLAIMED.update({
+    "C18": dict(
+        text="The real Schedule.get_schedule/_get_schedule/_is_dated/set_schedule/_handle_msg/_update_payload_set and ScheduleSync._obtain_lock/_release_lock/_schedule_version run on the virtual-time loop (heat.dt = virtual clock) against a scripted controller holding two concrete schedule versions (real zlib); per exchange answer/failure and duration, the position of a version bump, an overheard fragment and the caller's timeout (a solver real) are solver variables. Per path: the transfer ends within the timeout, a returned schedule is version A's or B's (never a mixture) and consistent with the recorded change counter, else it raised; afterwards the transfer lock is free and a follow-up transfer for another zone completes.",
+        note="Most decisions are free Booleans/selectors (the solver's part: timeout-versus-progress zones, bookkeeping, replay). Bounds: <= 8 (10) exchanges, <= 2 (3) failures, one bump, one overheard fragment, one follow-up zone; three concurrent transfers are outside. The lock kept after a failed/abandoned get_schedule was found by this check and repaired.",
+        design="4/C18"),
+})
 NOT_APPLICABLE = {
     "C12": "whole-gateway discovery against a scripted controller over simulated hours: the quantified space is a discrete configuration/loss pattern and the entity layer (voluptuous schemas, pollers, entity graph) is outside the symbolically executable subset; decode kernels it rests on are covered under C05",
     "C15": "schema validity/consistency over packet histories: validators are voluptuous (third-party, callable/regex based, not instrumented) and the rules live in the entity graph; no symbolic dimension is encodable within reach",
